@@ -1,7 +1,7 @@
 //@ unit D
 //@ default-props C01 C02 C04 C05 C07 C08 C09 C10 C17 C18 C20
 // every call of a function that reaches the file system gets the ghost world (robust to added / removed call sites)
-//@ world-calls /(\w+\.)?(is_dir|is_file|rename|get_modified|is_executable|set_is_executable|execute_command)|download_file|(\w+\.)*(restore_file|back_up_file_with_ticket|back_up_file)|TicketFactory::from_(file|directory)|get_file_ticket_from_path|get_file_ticket|get_actual_file_state|(\w+\.)*(get_current_file_state_vec|update_to_match_system_file_state|resolve_remembered_file_state_vec|resolve_with_no_current_file_states)|restore_or_download|resolve_single_target|rebuild_node|resolve_with_cache|handle_rule_node|handle_source_only_node|clean_targets/ Tracked(w)
+//@ world-calls /(\w+\.)?(is_dir|is_file|open|rename|get_modified|is_executable|set_is_executable|execute_command)|download_file|(\w+\.)*(restore_file|back_up_file_with_ticket|back_up_file)|TicketFactory::from_(file|directory)|get_file_ticket_from_path|get_file_ticket|get_actual_file_state|(\w+\.)*(get_current_file_state_vec|update_to_match_system_file_state|resolve_remembered_file_state_vec|resolve_with_no_current_file_states)|restore_or_download|resolve_single_target|rebuild_node|resolve_with_cache|handle_rule_node|handle_source_only_node|clean_targets/ Tracked(w)
 // Unit D: cache.rs, blob.rs, history.rs (in-memory part), work.rs -- the per-rule machinery.
 // Function bodies between `//@ extract` and `//@ end` are copied from /repo/src on every run.
 use vstd::prelude::*;
@@ -22,6 +22,8 @@ verus! {
 //@ extract system/mod.rs struct CommandScript
 //@ end
 //@ extract ticket.rs struct Ticket
+//@ end
+//@ extract cache.rs enum OpenError
 //@ end
 //@ extract cache.rs enum RestoreResult
 //@ end
@@ -125,6 +127,19 @@ impl DownloaderCache {
 }
 
 impl<SystemType : System> SysCache<SystemType> {
+//@ extract cache.rs impl /SysCache<SystemType>$/ fn open
+//@ props C05 C09
+//@ ret res
+//@ param Tracked(w): Tracked<&mut World>
+//@ rewrite 1 /Result<impl std::io::Read, OpenError>/ => Result<SystemType::File, OpenError>
+//@ rewrite 1 /format!\("\{\}\/\{\}", self\.path, ticket\.human_readable\(\)\)/ => fmt_slash(&self.path, &ticket.human_readable())
+//@ spec
+        requires self.wf(*old(w)),
+        ensures *final(w) == *old(w),       // looking into the cache changes nothing
+            res is Ok ==> old(w).files.contains_key(cpath(old(w).cache_dir, ticket.bytes())),
+            res matches Err(OpenError::NotThere) ==> !old(w).files.contains_key(cpath(old(w).cache_dir, ticket.bytes())),
+//@ end
+
 //@ extract cache.rs impl /SysCache<SystemType>$/ fn restore_file
 //@ props C02 C05 C07 C08 C09 C10 C20
 //@ ret res
@@ -644,7 +659,7 @@ spec fn cpath_under_fact(dir: Seq<char>, h: Seq<u8>) -> bool { under(dir, cpath(
 
 impl Blob {
 //@ extract blob.rs impl /^Blob$/ fn resolve_with_no_current_file_states
-//@ props C01 C05 C07 C08 C09
+//@ props C01 C04 C05 C07 C08 C09
 //@ ret res
 //@ param Tracked(w): Tracked<&mut World>
 //@ retype 1 /let mut resolutions = vec!\[\];/ => let mut resolutions : Vec<FileResolution> = Vec::new();
@@ -655,7 +670,7 @@ impl Blob {
             kept(*old(w), *final(w)),                                                                  //# O-D-rnc-kept [C08]
             frame_except(*old(w), *final(w), self.paths()),                                            //# O-D-rnc-frame [C09]
             final(w).execs == old(w).execs,
-            res matches Ok(v) ==> v@.len() == self.file_infos@.len()                                   //# O-D-rnc-all-displaced [C01,C08]
+            res matches Ok(v) ==> v@.len() == self.file_infos@.len()                                   //# O-D-rnc-all-displaced [C01,C08,C04]
                 && (forall|k: int| 0 <= k < self.file_infos@.len() ==> (#[trigger] v@[k]) is NeedsRebuild)
                 && self.all_absent(*final(w)),
 //@ loop 1 binder it
@@ -812,7 +827,7 @@ spec fn path_strs(paths: Seq<Seq<char>>, idx: Seq<usize>) -> Seq<Seq<char>> { Se
         hist_wf(rule_history.map(), blob.file_infos@.len() as int),
         // C08 at the moment the command starts: every target is either out of the way (displaced into the cache or absent)
         // or holds exactly the output recorded for these sources, so whatever the command overwrites is not a last copy
-        forall|k: int| 0 <= k < blob.file_infos@.len() ==> displaced_or_recorded(*old(w), #[trigger] blob.file_infos@[k].path@, rule_history.map(), sources_ticket, k),   //# O-D-exec-displaced [C08]
+        forall|k: int| 0 <= k < blob.file_infos@.len() ==> displaced_or_recorded(*old(w), #[trigger] blob.file_infos@[k].path@, rule_history.map(), sources_ticket, k),   //# O-D-exec-displaced [C08,C04]
     ensures
         ran(*old(w), *final(w), to_script(strs(command@))),                                             //# O-D-rebuild-one-exec [C02,C20]
         inv(*final(w)),                                                                                 //# O-D-rebuild-inv [C07]
